@@ -243,7 +243,7 @@ Section Program.
     w_sink w = None ->
     open_file w (op_log op) = Some (OData ldata NoFault) ->
     snd (scan ldata NoFault) = ScanEOF -> no_parse_error NM (events NM ldata) ->
-    op_db op <> [] ->
+    all_dated NM (rc_date (op_rc op)) (nodes_of NM (events NM ldata)) ->     (* fix F27: else the date error *)
     open_file w (op_db op) = Some (OData ddata NoFault) ->
     snd (scan ddata NoFault) = ScanEOF -> no_parse_error NM (events NM ddata) ->
     let ds := heading_dates NM (rc_date (op_rc op)) (nodes_of NM (events NM ldata)) in
